@@ -423,6 +423,32 @@ pub fn run(tier: &str) -> i32 {
     }
     rep.states += big.len() as u64 * 9;
     rep.transitions += big.len() as u64 * 9;
+    // ---- JSON spellings the writers never produce: \u escapes (BMP and surrogate pairs) and the integer spelled -0
+    {
+        let esc: Vec<(&str, String, V)> = vec![
+            ("bmp", "{\"k1\":\"caf\\u00e9 \\u20ac\"}".to_string(), m(vec![("k1", s("caf\u{e9} \u{20ac}"))])),
+            ("bmp", "{\"k1\":[\"\\u0041\",\"\\u00DF\"]}".to_string(), m(vec![("k1", l(vec![s("A"), s("\u{df}")]))])),
+            ("surrogate-pair", "{\"k1\":\"\\ud83d\\ude00\"}".to_string(), m(vec![("k1", s("\u{1F600}"))])),
+            ("surrogate-pair", "{\"k1\":{\"k2\":\"x\\uD834\\uDD1Ey\"}}".to_string(), m(vec![("k1", m(vec![("k2", s("x\u{1D11E}y"))]))])),
+            ("minus-zero", "{\"k1\":-0}".to_string(), m(vec![("k1", i(0))])),
+            ("minus-zero", "{\"k1\":[-0, 1]}".to_string(), m(vec![("k1", l(vec![i(0), i(1)]))])),
+        ];
+        for (kind, text, val) in &esc {
+            let (rules, names, _) = rules_for(val);
+            let mut sub = Acc::new();
+            observe(val, text, "json-escapes", &rules, &names, &mut sub);
+            for v in sub.viols {
+                let loader = v.replay["loader"].as_str().unwrap_or("?").to_string();
+                acc.violate(&format!("json-spelling:{}:{}", kind, loader), v.what, v.replay);
+            }
+            acc.traces += sub.traces;
+            for (k, c) in sub.outcomes {
+                *acc.outcomes.entry(k).or_insert(0) += c;
+            }
+        }
+        rep.states += esc.len() as u64 * 3;
+        rep.transitions += esc.len() as u64 * 3;
+    }
 
     // ---- rejections: an error exit, never a verdict, never a panic
     let rj = rejected_inputs();
